@@ -242,16 +242,16 @@ def main():
     ck = Check("C06")
     if ck.replay:
         body = json.load(open(os.path.join(VERIF, ck.replay) if not os.path.isabs(ck.replay) else ck.replay))
-        run_case(ck, body["case"])
+        ck.guard(run_case, ck, body["case"])
         ck.finish(rule="replay of one recorded case")
     ck.lean_obligations("CvProps.C06", THEOREMS)
     for case in json.load(open(os.path.join(VERIF, "harness", "corpus", "C06.json"))):
-        run_case(ck, case)
+        ck.guard(run_case, ck, case)
         ck.count("corpus")
     for _ in range(260 if not ck.thorough else 5000):
         if ck.enough():
             break
-        run_case(ck, gen_case(ck, 500 if not ck.thorough else 8000))
+        ck.guard(run_case, ck, gen_case(ck, 500 if not ck.thorough else 8000))
     ck.assumptions = [
         "torch.argsort results are recorded and replayed by the model; the theorems hold for every selection",
         "a BFS ball on non-inverse-closed generators is rejected up front by the (repaired) code; counted, not judged",
@@ -260,4 +260,6 @@ def main():
 
 
 if __name__ == "__main__":
-    main()
+    from cv.core import run_main
+
+    run_main(main)
